@@ -101,3 +101,101 @@ Fixpoint run_fs_from (t : tree) (ops : list (list Z)) : list (list Z) :=
       end
   end.
 Definition run_fs := run_fs_from [].
+
+(* ---- handlers.  First op must be the configuration op [9; ...].
+   dest ops:   [0; pdu] sm(pdu) | [1] sm(None) | [2] get | [3; src; seq] cancel | [4] reset | [5; ms] advance
+               | [6; on] reject writes | [7; fs-setup] | [10; path] read file
+   source ops: the same, plus [8; put request]
+   obs = [exc; ret] ++ state ++ events ++ extra *)
+From CFDP Require Import Handler Dest Source Codec.
+From RecordUpdate Require Import RecordSet.
+Import RecordSetNotations.
+
+Definition clear_log_d (s : dst) : dst := s <| d_env ::= (fun e => e <| e_log := [] |>) |>.
+Definition finish_d {A} (r : dst * res Z A) (retv : A -> Z) (extra : dst -> A -> list Z) : dst * list Z :=
+  let '(s, x) := r in
+  let '(exc, rv, ex) := match x with Ok a => (0, retv a, extra s a) | Err e => (e, 0, []) end in
+  (s, [exc; rv] ++ obs_dest s ++ enc_events (e_log (d_env s)) ++ ex).
+
+Definition dest_op (s0 : dst) (o : list Z) : option (dst * list Z) :=
+  let s := clear_log_d s0 in
+  match o with
+  | 0 :: p => match dec_pdu p with
+              | Some pd => Some (finish_d (Dest.state_machine (Some pd) s) (fun _ => 0) (fun _ _ => []))
+              | None => None end
+  | [1] => Some (finish_d (Dest.state_machine None s) (fun _ => 0) (fun _ _ => []))
+  | [2] => Some (finish_d (Dest.get_next_packet s) (fun p => match p with Some _ => 1 | None => 0 end) (fun _ p => enc_got p))
+  | [3; a; b] => Some (finish_d (Dest.cancel_request a b s) b2z (fun _ _ => []))
+  | [4] => Some (finish_d (Dest.reset s) (fun _ => 0) (fun _ _ => []))
+  | [5; ms] => Some (finish_d (modify (fun s => s <| d_env ::= (fun e => e <| e_now ::= Z.add ms |>) |>) s) (fun _ => 0) (fun _ _ => []))
+  | [6; on] => Some (finish_d (modify (fun s => s <| d_env ::= (fun e => e <| e_reject_writes := z2b on |>) |>) s) (fun _ => 0) (fun _ _ => []))
+  | 7 :: r => match fs_setup (e_fs (d_env s)) r with
+              | Some t => Some (finish_d (modify (fun s => s <| d_env ::= (fun e => e <| e_fs := t |>) |>) s) (fun _ => 0) (fun _ _ => []))
+              | None => None end
+  | 10 :: r => match dec_path r with
+               | Some (p, _) => Some (finish_d (ret tt s) (fun _ => 0) (fun s _ => enc_file (e_fs (d_env s)) p))
+               | None => None end
+  | _ => None
+  end.
+
+Fixpoint run_dest_from (s : dst) (ops : list (list Z)) : list (list Z) :=
+  match ops with
+  | [] => []
+  | o :: t => match dest_op s o with
+              | Some (s', ob) => ob :: run_dest_from s' t
+              | None => [[-1]]
+              end
+  end.
+Definition run_dest (ops : list (list Z)) : list (list Z) :=
+  match ops with
+  | (9 :: c) :: t => match dec_lcfg c with
+                     | Some (cfg, _) => [] :: run_dest_from (dst_init cfg) t
+                     | None => [[-1]] end
+  | _ => [[-1]]
+  end.
+
+Definition clear_log_s (s : src) : src := s <| s_env ::= (fun e => e <| e_log := [] |>) |>.
+Definition finish_s {A} (r : src * res Z A) (retv : A -> Z) (extra : src -> A -> list Z) : src * list Z :=
+  let '(s, x) := r in
+  let '(exc, rv, ex) := match x with Ok a => (0, retv a, extra s a) | Err e => (e, 0, []) end in
+  (s, [exc; rv] ++ obs_source s ++ enc_events (e_log (s_env s)) ++ ex).
+
+Definition source_op (s0 : src) (o : list Z) : option (src * list Z) :=
+  let s := clear_log_s s0 in
+  match o with
+  | 0 :: p => match dec_pdu p with
+              | Some pd => Some (finish_s (state_machine_s (Some pd) s) (fun _ => 0) (fun _ _ => []))
+              | None => None end
+  | [1] => Some (finish_s (state_machine_s None s) (fun _ => 0) (fun _ _ => []))
+  | [2] => Some (finish_s (get_next_packet_s s) (fun p => match p with Some _ => 1 | None => 0 end) (fun _ p => enc_got p))
+  | [3; a; b] => Some (finish_s (cancel_request_s a b s) b2z (fun _ _ => []))
+  | [4] => Some (finish_s (reset_s s) (fun _ => 0) (fun _ _ => []))
+  | [5; ms] => Some (finish_s (modify (fun s => s <| s_env ::= (fun e => e <| e_now ::= Z.add ms |>) |>) s) (fun _ => 0) (fun _ _ => []))
+  | [6; on] => Some (finish_s (ret tt s) (fun _ => 0) (fun _ _ => []))
+  | 7 :: r => match fs_setup (e_fs (s_env s)) r with
+              | Some t => Some (finish_s (modify (fun s => s <| s_env ::= (fun e => e <| e_fs := t |>) |>) s) (fun _ => 0) (fun _ _ => []))
+              | None => None end
+  | 8 :: r => match dec_put r with
+              | Some pr => Some (finish_s (put_request pr s) b2z (fun _ _ => []))
+              | None => None end
+  | 10 :: r => match dec_path r with
+               | Some (p, _) => Some (finish_s (ret tt s) (fun _ => 0) (fun s _ => enc_file (e_fs (s_env s)) p))
+               | None => None end
+  | _ => None
+  end.
+
+Fixpoint run_source_from (s : src) (ops : list (list Z)) : list (list Z) :=
+  match ops with
+  | [] => []
+  | o :: t => match source_op s o with
+              | Some (s', ob) => ob :: run_source_from s' t
+              | None => [[-1]]
+              end
+  end.
+Definition run_source (ops : list (list Z)) : list (list Z) :=
+  match ops with
+  | (9 :: c) :: t => match dec_lcfg c with
+                     | Some (cfg, [seq0; bits]) => [] :: run_source_from (src_init cfg seq0 bits) t
+                     | _ => [[-1]] end
+  | _ => [[-1]]
+  end.
